@@ -101,7 +101,15 @@ impl Comms {
                 // There's not much we can do about an error here, other than log it, which send_command already does, so we ignore any error.
                 let _ = self.send_command(Command::Shutdown);
                 // Join threads so that they're properly cleaned up including the profiling data
-                if let Comms::Local { thread, .. } = self { // Always true, just need to extract the fields
+                if let Comms::Local { thread, receiver, .. } = self { // Always true, just need to extract the fields
+                    // The doer might be blocked waiting for space in the channel to send us a response (e.g. if we stopped
+                    // early because of an error), in which case it will never see the Shutdown command. Discard any remaining
+                    // responses until it's finished, so that we don't wait for it forever.
+                    while !thread.is_finished() {
+                        if receiver.try_recv().is_err() {
+                            std::thread::sleep(Duration::from_millis(1));
+                        }
+                    }
                     if let Err(e) = thread.join().expect("Failed to join local doer thread") {
                         error!("Local doer thread exited with error: {e}");
                     }
@@ -144,10 +152,22 @@ impl Comms {
 
                 // Shutdown the comms cleanly, potentially getting profiling data at the same time
                 if let Comms::Remote { encrypted_comms, mut ssh_process, stdin, stdout, stderr_reading_thread, .. } = self { // This is always true, we just need a way of getting the fields
-                    // Wait for remote doers to send back any profiling data, if enabled
-                    match encrypted_comms.receiver.recv() {
-                        Ok(Response::ProfilingData(x)) => add_remote_profiling(x, _debug_name, profiling_offset),
-                        x => error!("Unexpected response as final message (expected ProfilingData): {:?}", x),
+                    // Wait for remote doers to send back any profiling data, if enabled.
+                    // There might be other responses still queued up (e.g. if we stopped early because of an error),
+                    // which need to be discarded, otherwise the background receiving thread might be blocked forever waiting
+                    // for space in the channel and we would never be able to join it.
+                    loop {
+                        match encrypted_comms.receiver.recv() {
+                            Ok(Response::ProfilingData(x)) => {
+                                add_remote_profiling(x, _debug_name, profiling_offset);
+                                break;
+                            }
+                            Ok(_) => continue,
+                            x => {
+                                error!("Unexpected response as final message (expected ProfilingData): {:?}", x);
+                                break;
+                            }
+                        }
                     }
 
                     encrypted_comms.shutdown();
